@@ -9,6 +9,7 @@ import (
 	"fmt"
 	"github.com/oasisprotocol/oasis-core/go/common/entity"
 	"github.com/oasisprotocol/oasis-core/go/common/version"
+	upgrade "github.com/oasisprotocol/oasis-core/go/upgrade/api"
 	"math/rand"
 	"sort"
 	"strings"
@@ -397,6 +398,13 @@ func (n *cnNet) buildTx(spec *cnTxSpec, rng *rand.Rand) ([]byte, error) {
 				Changes: cbor.Marshal(staking.ConsensusParameterChanges{MinTransferAmount: &mt})}
 		case "bad-module":
 			pc.ChangeParameters = &governance.ChangeParametersProposal{Module: "no-such-module", Changes: cbor.Marshal(map[string]int{"x": 1})}
+		case "upgrade":
+			// spec.Amount is the upgrade epoch
+			pc.Upgrade = &governance.UpgradeProposal{Descriptor: upgrade.Descriptor{Versioned: cbor.NewVersioned(upgrade.LatestDescriptorVersion),
+				Handler: upgrade.HandlerName(fmt.Sprintf("verif-upgrade-%d", spec.Amount)), Target: version.Versions, Epoch: beacon.EpochTime(spec.Amount)}}
+		case "cancel-upgrade":
+			// spec.Amount is the identifier of the proposal whose upgrade is to be cancelled
+			pc.CancelUpgrade = &governance.CancelUpgradeProposal{ProposalID: uint64(spec.Amount)}
 		case "empty":
 			// neither upgrade, cancellation nor parameter change: must fail basic validation
 		default:
